@@ -145,6 +145,8 @@ def check(run):
     # Cartesian-only sources (Exodus, face vertices) get their lon/lat through _xyz_to_lonlat_*: normalisation by the length, pole window
     from .c04 import _xyz_helpers
     _xyz_helpers(run, P)
+    _readers_normalise(run, P)
+    _polygon_rings(run, P)
 
 
 # ------------------------------------------------------------------------------------------------ dispatch
@@ -659,3 +661,55 @@ def _construct_paths(run, P):
             run.holds("F-PATH/constructors", c, where(f), f"all {len(rets)} return(s) construct the Grid through cls(...)")
         else:
             run.violation("F-PATH/constructors", c, where(f, bad[0]) if bad else where(f), "a return path does not construct the Grid through cls(...): Grid.__init__'s normalisation is bypassed")
+
+
+def _readers_normalise(run, P):
+    """A reader converts the FILE's Cartesian coordinates; nothing makes them unit length (Exodus meshes come on spheres of any radius).  Every call of
+    _xyz_to_lonlat_deg/_rad in uxarray/io therefore leaves `normalize` at its default (True): with normalize=False the latitude is arcsin(z) of the raw z."""
+    n = 0
+    for f in P.all_functions():
+        if not f.module.relpath.startswith(IO):
+            continue
+        for call in ast.walk(f.node):
+            if not (isinstance(call, ast.Call) and (dotted(call.func) or [""])[-1] in ("_xyz_to_lonlat_deg", "_xyz_to_lonlat_rad")):
+                continue
+            n += 1
+            c = f"{f.key}:call({(dotted(call.func) or [''])[-1]}):normalize"
+            kwv = next((k.value for k in call.keywords if k.arg == "normalize"), call.args[3] if len(call.args) > 3 else None)
+            if kwv is None or (isinstance(kwv, ast.Constant) and kwv.value is True):
+                run.holds("F-UNIT/reader-normalises", c, where(f, call), "file coordinates are normalised by their length before arcsin/arctan2")
+            elif isinstance(kwv, ast.Constant) and kwv.value is False:
+                run.violation("F-UNIT/reader-normalises", c, where(f, call), "the file's Cartesian coordinates are converted with normalize=False: for a mesh on a sphere of radius != 1 the latitude is arcsin of the raw z")
+            else:
+                run.incomplete("F-UNIT/reader-normalises", c, where(f, call), f"normalize={norm(kwv)[:60]} is decided at run time: whether exactly the unit-length inputs skip the normalisation is not decided here")
+    run.floor("F-UNIT/reader-normalises", n, 1)
+
+
+def _polygon_rings(run, P):
+    """A polygon of a GeoJSON/shapefile source describes ONE face: its exterior ring.  The reader therefore takes vertices from `<polygon>.exterior.coords` only; an
+    extraction that returns the vertices of all rings (shapely.get_coordinates / .get_coordinates() on polygons, `.interiors`, `.boundary`) turns a polygon with a hole
+    into a face with the hole's vertices appended."""
+    n_ext = 0
+    bad = []
+    for f in P.all_functions():
+        if f.module.relpath != f"{IO}_geopandas.py":
+            continue
+        for n in ast.walk(f.node):
+            if isinstance(n, ast.Attribute) and n.attr == "coords" and isinstance(n.value, ast.Attribute) and n.value.attr == "exterior":
+                n_ext += 1
+            elif isinstance(n, ast.Attribute) and n.attr in ("interiors", "boundary"):
+                bad.append((f, n, f"`{norm(n)[:50]}`"))
+            elif isinstance(n, ast.Call) and (n.func.attr if isinstance(n.func, ast.Attribute) else getattr(n.func, "id", "")) in ("get_coordinates", "get_rings", "get_parts") and (n.func.attr if isinstance(n.func, ast.Attribute) else n.func.id) != "get_parts":
+                # applied to an exterior ring it is fine
+                arg = n.args[0] if n.args else (n.func.value if isinstance(n.func, ast.Attribute) else None)
+                if not (arg is not None and "exterior" in norm(arg)):
+                    bad.append((f, n, f"`{norm(n)[:60]}` (vertices of ALL rings of its argument)"))
+    c = f"{IO}_geopandas.py:vertices-from-exterior-ring"
+    for f, n, what in bad:
+        run.violation("F-SRC/polygon-exterior", f"{f.key}:{norm(n)[:40]}", where(f, n), f"polygon vertices are taken through {what}: a polygon with an interior ring is decoded as a face that also lists the hole's vertices")
+    if not bad:
+        if n_ext >= 1:
+            run.holds("F-SRC/polygon-exterior", c, "-", f"{n_ext} reads of <polygon>.exterior.coords; no extraction that returns all rings")
+        else:
+            run.incomplete("F-SRC/polygon-exterior", c, "-", "no read of <polygon>.exterior.coords found in the GeoDataFrame reader: how polygon vertices are extracted is not recognised")
+
